@@ -8,6 +8,7 @@ function = "Circuit::expandCellsToDensity, expandCellsByFactor, computeRowPlacem
 variants = [
   {name = "byFactor", enforce = "Circuit_expandCellsByFactor", tier = "thorough", timeout = 3000, memory_gb = 20, defines = ["H_FACTOR"], replace = ["Circuit_computeRowPlacementArea"]},
   {name = "byFactorStep", enforce = "factor_step", defines = ["H_FSTEP"]},
+  {name = "rowAreaStep", properties = ["C18"], enforce = "row_area_step", defines = ["H_ROWAREA"], solver = "cvc5", split = true, timeout = 300},
   {name = "toDensityWidth", properties = ["C18"], enforce = "density_width", defines = ["H_DWIDTH"]},
   {name = "toDensityStep", properties = ["C18"], safety_tier = "thorough", enforce = "density_step", defines = ["H_DSTEP"]},
   {name = "toDensityFrame", properties = ["C18"], safety_tier = "thorough", enforce = "Circuit_expandCellsToDensity", defines = ["H_DFRAME"], replace = ["Circuit_computeRowPlacementArea"]},
@@ -112,6 +113,31 @@ text = '''return g_wcell;'''
 @*/
 #undef cellWidth_
 #undef expansion
+#endif
+
+#ifdef H_ROWAREA
+/* per-row step of computeRowPlacementArea (loop body sliced from the repo) */
+long long g_area0, g_wcount; double g_x;
+void row_area_step(Rectangle r, double rowSideMargin, long long *rowArea_p)
+__CPROVER_requires(__CPROVER_is_fresh(rowArea_p, sizeof(long long)) && MAGV(r.minX) && MAGV(r.maxX) && MAGV(r.minY) && MAGV(r.maxY) && r.minX <= r.maxX && r.minY <= r.maxY)
+__CPROVER_requires(rowSideMargin >= 0.0 && rowSideMargin <= 1.0e3 && 0 <= *rowArea_p && *rowArea_p <= (1LL << 50) && g_area0 == *rowArea_p)
+/* C18 (free row area AFTER THE SIDE MARGIN): the width counted for a row is the real-valued width minus 2 * margin * height, rounded
+ * towards zero (never more than that), rows that the margin removes entirely count for nothing, and the area grows by width x height */
+__CPROVER_requires(g_x == (double)(long long)(r.maxX - r.minX) - 2 * rowSideMargin * (long long)(r.maxY - r.minY))
+__CPROVER_ensures(g_x >= 0.0 ==> ((double)g_wcount <= g_x && g_x - (double)g_wcount < 1.0))
+__CPROVER_ensures(g_x < 0.0 ==> g_wcount <= 0)
+__CPROVER_ensures(*rowArea_p == g_area0 + (g_wcount > 0 ? g_wcount * (long long)(r.maxY - r.minY) : 0))
+__CPROVER_assigns(*rowArea_p, g_wcount)
+/*@extract
+file = "src/coloquinte.cpp"
+head = 'long long Circuit::computeRowPlacementArea\(double rowSideMargin\) const'
+slice_from = 'long long h = r\.height\(\);'
+slice_to = '\}\s*return rowArea;'
+rewrites = [['\br\.(height|width)\(\)', 'Rectangle_\1(r)', '2+'], ['\browArea\b', '(*rowArea_p)', '1+']]
+[[ghosts]]
+after = 'w -= [^;]*;'
+text = """GHOST(g_wcount = w;)"""
+@*/
 #endif
 
 #ifdef H_DWIDTH
@@ -242,6 +268,8 @@ void harness(void) {
   density_step(h, d1, mp);
 #elif defined(H_DWIDTH)
   density_width(h, w, d1, d2);
+#elif defined(H_ROWAREA)
+  Rectangle rr; long long *ap; row_area_step(rr, d1, ap);
 #else
   Circuit_expandCellsToDensity(c, d1, d2, d3);
 #endif
